@@ -1,3 +1,513 @@
 import B6.Driver.Common
-/-! Driver for C19 — stub (the check for this property is not built yet). -/
-def main : IO Unit := B6.Driver.run { σ := Unit, init := (), step := fun s _ _ => (s, .bad) }
+import B6.Model.WireExpr
+/-!
+Driver for C19.  Stateless.  Protos and expressions travel as S-expressions (strings as `x<hex>`, floats
+as `f<16 hex digits of the bit pattern>`, everything else decimal words):
+
+NodeProto   `(N name begin end KIND)`     KIND = `unset` | `(sym x)` | `(lit L)` | `(call 0|1 N N*)` | `(lam (x*) N)`
+Literal     L = `unset` `nil` `pair` `feature` `applied` | `(bool 0|1)` `(str x)` `(int n)` `(float f)` |
+                `(coll sk sv (L L)*)` | `(query Q)` | `(id enum x value)` | `(pt lat lng)` | `(path lat lng …)` |
+                `(area (poly (loop lat lng …)*)*)` | `(geojson x)` | `(tag x x)` | `(route ID (step ID ID f)*)`
+QueryProto  Q = `unset` `all` `empty` `isvalid` | `(keyed x)` `(tagged x x)` `(typed enum Q)` `(typed enum)` `(and Q*)`
+                `(or Q*)` `(cap lat lng f)` `(feat enum x value)` `(qpt lat lng)` `(qline lat lng …)` `(qarea POLY*)`
+                `(cells n*)` `(might n*)`
+Expression  `(E name begin end ANY)`; ANY / queries as above with type *names* instead of enum numbers, tag
+            values `(s x)` (a string expression) or `(o x)` (anything else, its String()), `absent` for a nil
+            AnyExpression, `(coll (ANY ANY)*)`.
+
+ops
+  `rt P`   client proto P:  answer `E | P' | E' | P'' | eq`  (ExpressionFromProto(P); E.ToProto(); ExpressionFromProto(P');
+           E'.ToProto(); E.Equal(E')), each field the S-expression or `err` / `panic`, `-` once a stage failed
+  `ex E`   server-side expression E:  answer `P | E' | P'' | eq`
+The model recomputes every stage from the implementation's previous stage (so one disagreement does not cascade);
+the property predicate — E' = E, P'' = P', Go's Equal says so too — is evaluated on the implementation's answers
+for requests in `NodeP.wire` / expressions in `Expr.supported`.
+-/
+open B6.Driver B6.Model.WireExpr B6.Model.FeatureID
+namespace B6.Driver.C19
+
+inductive SExp where
+  | atom (s : String)
+  | list (xs : List SExp)
+  deriving Inhabited
+
+def tokenize (s : String) : List String :=
+  let padded := String.ofList (s.toList.flatMap fun c =>
+    if c == '(' || c == ')' then [' ', c, ' '] else [c])
+  words padded
+
+partial def parseSExp : List String → Option (SExp × List String)
+  | [] => none
+  | "(" :: rest =>
+    let rec go (ts : List String) (acc : List SExp) : Option (SExp × List String) :=
+      match ts with
+      | [] => none
+      | ")" :: rest => some (.list acc.reverse, rest)
+      | _ =>
+        match parseSExp ts with
+        | some (x, rest) => go rest (x :: acc)
+        | none => none
+    go rest []
+  | ")" :: _ => none
+  | t :: rest => some (.atom t, rest)
+
+def readSExp (s : String) : Option SExp :=
+  match parseSExp (tokenize s) with
+  | some (x, []) => some x
+  | _ => none
+
+/-! ### atoms -/
+
+def hexVal (s : String) : Option Nat :=
+  s.toList.foldlM (fun acc c => (hexDigit? c).map (acc * 16 + ·)) 0
+
+def aStr : SExp → Option String
+  | .atom s => if s.startsWith "x" then some (sdrop s 1) else none
+  | _ => none
+def aNat : SExp → Option Nat
+  | .atom s => s.toNat?
+  | _ => none
+def aInt : SExp → Option Int
+  | .atom s => s.toInt?
+  | _ => none
+def aFloat : SExp → Option Nat
+  | .atom s => if s.startsWith "f" then hexVal (sdrop s 1) else none
+  | _ => none
+def aBool : SExp → Option Bool
+  | .atom "0" => some false
+  | .atom "1" => some true
+  | _ => none
+
+def rStr (s : String) : String := "x" ++ s
+def hex16 (n : Nat) : String :=
+  String.ofList ((List.range 16).reverse.map fun i => hexOfNibble ((n / 16 ^ i) % 16))
+def rFloat (n : Nat) : String := "f" ++ hex16 n
+def rBool (b : Bool) : String := if b then "1" else "0"
+def paren (xs : List String) : String := "(" ++ " ".intercalate xs ++ ")"
+
+def typeName : FType → String
+  | .point => "point" | .path => "path" | .area => "area" | .relation => "relation"
+  | .invalid => "invalid" | .collection => "collection" | .expression => "expression"
+def parseType : String → Option FType
+  | "point" => some .point | "path" => some .path | "area" => some .area
+  | "relation" => some .relation | "invalid" => some .invalid
+  | "collection" => some .collection | "expression" => some .expression | _ => none
+
+/-! ### geometry -/
+
+def decPoints : List SExp → Option (List PointE7)
+  | [] => some []
+  | a :: b :: rest => do
+    let lat ← aInt a
+    let lng ← aInt b
+    let r ← decPoints rest
+    pure (⟨lat, lng⟩ :: r)
+  | _ => none
+
+def rPoints (ps : List PointE7) : List String := ps.flatMap fun p => [toString p.lat, toString p.lng]
+
+def decLoop : SExp → Option Loop
+  | .list (.atom "loop" :: pts) => decPoints pts
+  | _ => none
+def decPoly : SExp → Option Polygon
+  | .list (.atom "poly" :: loops) => loops.mapM decLoop
+  | _ => none
+def rPoly (p : Polygon) : String := paren ("poly" :: p.map fun l => paren ("loop" :: rPoints l))
+
+/-! ### IDs, routes -/
+
+def decWIDP : SExp → Option WIDP
+  | .list [.atom "id", e, ns, v] => do pure ⟨← aNat e, ← aStr ns, ← aNat v⟩
+  | _ => none
+def rWIDP (tag : String) (p : WIDP) : String := paren [tag, toString p.enum, rStr p.ns, toString p.value]
+def decWID : SExp → Option WID
+  | .list [.atom "id", .atom t, ns, v] => do pure ⟨← parseType t, ← aStr ns, ← aNat v⟩
+  | _ => none
+def rWID (tag : String) (f : WID) : String := paren [tag, typeName f.type, rStr f.ns, toString f.value]
+
+def decRouteP : List SExp → Option RouteP
+  | o :: steps => do
+    let o ← decWIDP o
+    let ss ← steps.mapM fun s =>
+      match s with
+      | .list [.atom "step", d, v, c] => do pure (⟨← decWIDP d, ← decWIDP v, ← aFloat c⟩ : StepP)
+      | _ => none
+    pure ⟨o, ss⟩
+  | _ => none
+def rRouteP (r : RouteP) : String :=
+  paren ("route" :: rWIDP "id" r.origin :: r.steps.map fun s =>
+    paren ["step", rWIDP "id" s.destination, rWIDP "id" s.via, rFloat s.cost])
+def decRoute : List SExp → Option Route
+  | o :: steps => do
+    let o ← decWID o
+    let ss ← steps.mapM fun s =>
+      match s with
+      | .list [.atom "step", d, v, c] => do pure (⟨← decWID d, ← decWID v, ← aFloat c⟩ : Step)
+      | _ => none
+    pure ⟨o, ss⟩
+  | _ => none
+def rRoute (r : Route) : String :=
+  paren ("route" :: rWID "id" r.origin :: r.steps.map fun s =>
+    paren ["step", rWID "id" s.destination, rWID "id" s.via, rFloat s.cost])
+
+/-! ### query protos -/
+
+mutual
+partial def decQueryP : SExp → Option QueryP
+  | .atom "unset" => some .unset
+  | .atom "all" => some .all
+  | .atom "empty" => some .empty
+  | .atom "isvalid" => some .isValid
+  | .list [.atom "keyed", k] => do pure (.keyed (← aStr k))
+  | .list [.atom "tagged", k, v] => do pure (.tagged (← aStr k) (← aStr v))
+  | .list [.atom "typed", e, q] => do pure (.typed (← aNat e) (← decQueryP q))
+  | .list [.atom "typed", e] => do pure (.typedNoQuery (← aNat e))
+  | .list (.atom "and" :: qs) => do pure (.inter (← decQueryPList qs))
+  | .list (.atom "or" :: qs) => do pure (.union (← decQueryPList qs))
+  | .list [.atom "cap", a, b, r] => do pure (.cap ⟨← aInt a, ← aInt b⟩ (← aFloat r))
+  | .list [.atom "feat", e, ns, v] => do pure (.feature ⟨← aNat e, ← aStr ns, ← aNat v⟩)
+  | .list [.atom "qpt", a, b] => do pure (.point ⟨← aInt a, ← aInt b⟩)
+  | .list (.atom "qline" :: pts) => do pure (.polyline (← decPoints pts))
+  | .list (.atom "qarea" :: ps) => do pure (.multipolygon (← ps.mapM decPoly))
+  | .list (.atom "cells" :: ids) => do pure (.cells (← ids.mapM aNat))
+  | .list (.atom "might" :: ids) => do pure (.might (← ids.mapM aNat))
+  | _ => none
+partial def decQueryPList : List SExp → Option QueryPList
+  | [] => some .nil
+  | q :: qs => do pure (.cons (← decQueryP q) (← decQueryPList qs))
+end
+
+mutual
+partial def rQueryP : QueryP → String
+  | .unset => "unset" | .all => "all" | .empty => "empty" | .isValid => "isvalid"
+  | .keyed k => paren ["keyed", rStr k]
+  | .tagged k v => paren ["tagged", rStr k, rStr v]
+  | .typed e q => paren ["typed", toString e, rQueryP q]
+  | .typedNoQuery e => paren ["typed", toString e]
+  | .inter qs => paren ("and" :: rQueryPList qs)
+  | .union qs => paren ("or" :: rQueryPList qs)
+  | .cap c r => paren ["cap", toString c.lat, toString c.lng, rFloat r]
+  | .feature id => rWIDP "feat" id
+  | .point p => paren ["qpt", toString p.lat, toString p.lng]
+  | .polyline ps => paren ("qline" :: rPoints ps)
+  | .multipolygon m => paren ("qarea" :: m.map rPoly)
+  | .cells ids => paren ("cells" :: ids.map toString)
+  | .might ids => paren ("might" :: ids.map toString)
+partial def rQueryPList : QueryPList → List String
+  | .nil => []
+  | .cons q qs => rQueryP q :: rQueryPList qs
+end
+
+/-! ### queries (server side) -/
+
+def decTagVal : SExp → Option TagVal
+  | .list [.atom "s", v] => do pure (.str (← aStr v))
+  | .list [.atom "o", v] => do pure (.other (← aStr v))
+  | _ => none
+def rTagVal : TagVal → String
+  | .str s => paren ["s", rStr s]
+  | .other r => paren ["o", rStr r]
+
+mutual
+partial def decQuery : SExp → Option Query
+  | .atom "all" => some .all
+  | .atom "empty" => some .empty
+  | .atom "isvalid" => some .isValid
+  | .list [.atom "keyed", k] => do pure (.keyed (← aStr k))
+  | .list [.atom "tagged", k, v] => do pure (.tagged (← aStr k) (← decTagVal v))
+  | .list [.atom "typed", .atom t, q] => do pure (.typed (← parseType t) (← decQuery q))
+  | .list (.atom "and" :: qs) => do pure (.inter (← decQueryList qs))
+  | .list (.atom "or" :: qs) => do pure (.union (← decQueryList qs))
+  | .list [.atom "cap", a, b, r] => do pure (.cap ⟨← aInt a, ← aInt b⟩ (← aFloat r))
+  | .list [.atom "feat", .atom t, ns, v] => do pure (.feature ⟨← parseType t, ← aStr ns, ← aNat v⟩)
+  | .list [.atom "qpt", a, b] => do pure (.point ⟨← aInt a, ← aInt b⟩)
+  | .list (.atom "qline" :: pts) => do pure (.polyline (← decPoints pts))
+  | .list (.atom "qarea" :: ps) => do pure (.multipolygon (← ps.mapM decPoly))
+  | .list (.atom "cells" :: ids) => do pure (.cells (← ids.mapM aNat))
+  | .list (.atom "might" :: ids) => do pure (.might (← ids.mapM aNat))
+  | _ => none
+partial def decQueryList : List SExp → Option QueryList
+  | [] => some .nil
+  | q :: qs => do pure (.cons (← decQuery q) (← decQueryList qs))
+end
+
+mutual
+partial def rQuery : Query → String
+  | .all => "all" | .empty => "empty" | .isValid => "isvalid"
+  | .keyed k => paren ["keyed", rStr k]
+  | .tagged k v => paren ["tagged", rStr k, rTagVal v]
+  | .typed t q => paren ["typed", typeName t, rQuery q]
+  | .inter qs => paren ("and" :: rQueryList qs)
+  | .union qs => paren ("or" :: rQueryList qs)
+  | .cap c r => paren ["cap", toString c.lat, toString c.lng, rFloat r]
+  | .feature id => rWID "feat" id
+  | .point p => paren ["qpt", toString p.lat, toString p.lng]
+  | .polyline ps => paren ("qline" :: rPoints ps)
+  | .multipolygon m => paren ("qarea" :: m.map rPoly)
+  | .cells ids => paren ("cells" :: ids.map toString)
+  | .might ids => paren ("might" :: ids.map toString)
+partial def rQueryList : QueryList → List String
+  | .nil => []
+  | .cons q qs => rQuery q :: rQueryList qs
+end
+
+/-! ### node protos -/
+
+mutual
+partial def decLitP : SExp → Option LitP
+  | .atom "unset" => some .unset
+  | .atom "nil" => some .nilV
+  | .atom "pair" => some .pairV
+  | .atom "feature" => some .featureV
+  | .atom "applied" => some .appliedChangeV
+  | .list [.atom "bool", b] => do pure (.boolV (← aBool b))
+  | .list [.atom "str", s] => do pure (.strV (← aStr s))
+  | .list [.atom "int", i] => do pure (.intV (← aInt i))
+  | .list [.atom "float", f] => do pure (.floatV (← aFloat f))
+  | .list (.atom "coll" :: sk :: sv :: pairs) => do pure (.collV (← decLitPairs pairs) (← aNat sk) (← aNat sv))
+  | .list [.atom "query", q] => do pure (.queryV (← decQueryP q))
+  | .list [.atom "id", e, ns, v] => do pure (.idV ⟨← aNat e, ← aStr ns, ← aNat v⟩)
+  | .list [.atom "pt", a, b] => do pure (.pointV ⟨← aInt a, ← aInt b⟩)
+  | .list (.atom "path" :: pts) => do pure (.pathV (← decPoints pts))
+  | .list (.atom "area" :: ps) => do pure (.areaV (← ps.mapM decPoly))
+  | .list [.atom "geojson", b] => do pure (.geojsonV (← aStr b))
+  | .list [.atom "tag", k, v] => do pure (.tagV (← aStr k) (← aStr v))
+  | .list (.atom "route" :: r) => do pure (.routeV (← decRouteP r))
+  | _ => none
+partial def decLitPairs : List SExp → Option LitPairList
+  | [] => some .nil
+  | .list [k, v] :: rest => do pure (.cons (← decLitP k) (← decLitP v) (← decLitPairs rest))
+  | _ => none
+end
+
+mutual
+partial def rLitP : LitP → String
+  | .unset => "unset" | .nilV => "nil" | .pairV => "pair" | .featureV => "feature" | .appliedChangeV => "applied"
+  | .boolV b => paren ["bool", rBool b]
+  | .strV s => paren ["str", rStr s]
+  | .intV i => paren ["int", toString i]
+  | .floatV f => paren ["float", rFloat f]
+  | .collV pairs sk sv => paren ("coll" :: toString sk :: toString sv :: rLitPairs pairs)
+  | .queryV q => paren ["query", rQueryP q]
+  | .idV id => rWIDP "id" id
+  | .pointV p => paren ["pt", toString p.lat, toString p.lng]
+  | .pathV ps => paren ("path" :: rPoints ps)
+  | .areaV m => paren ("area" :: m.map rPoly)
+  | .geojsonV b => paren ["geojson", rStr b]
+  | .tagV k v => paren ["tag", rStr k, rStr v]
+  | .routeV r => rRouteP r
+partial def rLitPairs : LitPairList → List String
+  | .nil => []
+  | .cons k v rest => paren [rLitP k, rLitP v] :: rLitPairs rest
+end
+
+mutual
+partial def decKindP : SExp → Option KindP
+  | .atom "unset" => some .unset
+  | .list [.atom "sym", s] => do pure (.symbol (← aStr s))
+  | .list [.atom "lit", l] => do pure (.literal (← decLitP l))
+  | .list (.atom "call" :: p :: f :: args) => do pure (.call (← decNodeP f) (← decNodePList args) (← aBool p))
+  | .list [.atom "lam", .list ps, body] => do pure (.lambda (← ps.mapM aStr) (← decNodeP body))
+  | _ => none
+partial def decNodeP : SExp → Option NodeP
+  | .list [.atom "N", name, b, e, k] => do pure (.mk (← decKindP k) (← aStr name) (← aInt b) (← aInt e))
+  | _ => none
+partial def decNodePList : List SExp → Option NodePList
+  | [] => some .nil
+  | n :: ns => do pure (.cons (← decNodeP n) (← decNodePList ns))
+end
+
+mutual
+partial def rKindP : KindP → String
+  | .unset => "unset"
+  | .symbol s => paren ["sym", rStr s]
+  | .literal l => paren ["lit", rLitP l]
+  | .call f args p => paren ("call" :: rBool p :: rNodeP f :: rNodePList args)
+  | .lambda ps body => paren ["lam", paren (ps.map rStr), rNodeP body]
+partial def rNodeP : NodeP → String
+  | .mk k name b e => paren ["N", rStr name, toString b, toString e, rKindP k]
+partial def rNodePList : NodePList → List String
+  | .nil => []
+  | .cons n ns => rNodeP n :: rNodePList ns
+end
+
+/-! ### expressions -/
+
+mutual
+partial def decAny : SExp → Option Any
+  | .atom "absent" => some .absent
+  | .atom "nil" => some .nilLit
+  | .atom "feature" => some .feature
+  | .list [.atom "sym", s] => do pure (.symbol (← aStr s))
+  | .list [.atom "int", i] => do pure (.int (← aInt i))
+  | .list [.atom "float", f] => do pure (.float (← aFloat f))
+  | .list [.atom "bool", b] => do pure (.bool (← aBool b))
+  | .list [.atom "str", s] => do pure (.str (← aStr s))
+  | .list [.atom "id", .atom t, ns, v] => do pure (.id ⟨← parseType t, ← aStr ns, ← aNat v⟩)
+  | .list [.atom "tag", k, v] => do pure (.tag (← aStr k) (← decTagVal v))
+  | .list [.atom "pt", a, b] => do pure (.point ⟨← aInt a, ← aInt b⟩)
+  | .list (.atom "path" :: pts) => do pure (.path (← decPoints pts))
+  | .list (.atom "area" :: ps) => do pure (.area (← ps.mapM decPoly))
+  | .list [.atom "query", q] => do pure (.query (← decQuery q))
+  | .list [.atom "geojson", b] => do pure (.geojson (← aStr b))
+  | .list (.atom "route" :: r) => do pure (.route (← decRoute r))
+  | .list (.atom "coll" :: pairs) => do pure (.coll (← decPairs pairs))
+  | .list (.atom "call" :: p :: f :: args) => do pure (.call (← decExpr f) (← decExprList args) (← aBool p))
+  | .list [.atom "lam", .list ps, body] => do pure (.lambda (← ps.mapM aStr) (← decExpr body))
+  | _ => none
+partial def decExpr : SExp → Option Expr
+  | .list [.atom "E", name, b, e, a] => do pure (.mk (← decAny a) (← aStr name) (← aInt b) (← aInt e))
+  | _ => none
+partial def decExprList : List SExp → Option ExprList
+  | [] => some .nil
+  | e :: es => do pure (.cons (← decExpr e) (← decExprList es))
+partial def decPairs : List SExp → Option PairList
+  | [] => some .nil
+  | .list [k, v] :: rest => do pure (.cons (← decAny k) (← decAny v) (← decPairs rest))
+  | _ => none
+end
+
+mutual
+partial def rAny : Any → String
+  | .absent => "absent" | .nilLit => "nil" | .feature => "feature"
+  | .symbol s => paren ["sym", rStr s]
+  | .int i => paren ["int", toString i]
+  | .float f => paren ["float", rFloat f]
+  | .bool b => paren ["bool", rBool b]
+  | .str s => paren ["str", rStr s]
+  | .id f => rWID "id" f
+  | .tag k v => paren ["tag", rStr k, rTagVal v]
+  | .point p => paren ["pt", toString p.lat, toString p.lng]
+  | .path ps => paren ("path" :: rPoints ps)
+  | .area m => paren ("area" :: m.map rPoly)
+  | .query q => paren ["query", rQuery q]
+  | .geojson b => paren ["geojson", rStr b]
+  | .route r => rRoute r
+  | .coll items => paren ("coll" :: rPairs items)
+  | .call f args p => paren ("call" :: rBool p :: rExpr f :: rExprList args)
+  | .lambda ps body => paren ["lam", paren (ps.map rStr), rExpr body]
+partial def rExpr : Expr → String
+  | .mk a name b e => paren ["E", rStr name, toString b, toString e, rAny a]
+partial def rExprList : ExprList → List String
+  | .nil => []
+  | .cons e es => rExpr e :: rExprList es
+partial def rPairs : PairList → List String
+  | .nil => []
+  | .cons k v rest => paren [rAny k, rAny v] :: rPairs rest
+end
+
+def rR {α : Type} (f : α → String) : R α → String
+  | .ok a => f a
+  | .err => "err"
+  | .panic => "panic"
+
+def isSExp (s : String) : Bool := s.startsWith "("
+
+/-- a NaN anywhere in the text (`f7ff…`/`ffff…` with a non-zero mantissa): Go's `Equal` is then `false` -/
+def mentionsNaN (s : String) : Bool :=
+  (tokenize s).any fun t =>
+    t.startsWith "f" && t.length == 17 &&
+      match hexVal (sdrop t 1) with
+      | some bits => (bits / 2 ^ 52) % 2048 == 2047 && bits % 2 ^ 52 != 0
+      | none => false
+
+/-- equal token for token, except that the radius of a `(cap lat lng radius)` may differ by at most 16 units
+in the last place: the executable form of "`cv r = r` up to the float conversion's rounding". -/
+def capClose (a b : String) : Bool :=
+  let ta := (tokenize a).toArray
+  let tb := (tokenize b).toArray
+  ta.size == tb.size &&
+    (List.range ta.size).all fun i =>
+      let x := ta[i]!
+      let y := tb[i]!
+      x == y ||
+        (i ≥ 3 && ta[i - 3]! == "cap" && tb[i - 3]! == "cap" &&
+          match hexVal (sdrop x 1), hexVal (sdrop y 1) with
+          | some u, some v => x.startsWith "f" && y.startsWith "f" && (if u ≤ v then v - u else u - v) ≤ 16
+          | _, _ => false)
+
+def mentionsCap (s : String) : Bool := (tokenize s).contains "cap"
+
+/-- check one stage: the model's answer computed from the implementation's previous stage.  `float` stages
+(`ExpressionFromProto`, which runs the cap radius through floating point) are compared with `capClose`. -/
+def stage (name : String) (model impl : String) (float : Bool := false) : Option Verdict :=
+  if model == impl || (float && capClose model impl) then none else some (.diff s!"{name}:{model}")
+
+/-- the verdict when the property predicate is false on the implementation's answers: the documented class if
+the only thing that moved is a cap radius, by a few units in the last place -/
+def failVerdict (clause : String) (e e' p p' : String) : Verdict :=
+  if isSExp e && isSExp e' && isSExp p && isSExp p' && mentionsCap e && capClose e e' && capClose p p' &&
+      !(e == e' && p == p') then
+    .propfail (clause ++ " class=cap-radius-drift")
+  else .propfail clause
+
+def step (_ : Unit) (op impl : String) : Unit × Verdict :=
+  let fields := (impl.splitOn " | ").map strim
+  let v : Verdict :=
+    if op.startsWith "rt " then
+      match (readSExp (sdrop op 3)).bind decNodeP, fields with
+      | some p, [f1, f2, f3, f4, eq] =>
+        let inDomain := p.wire
+        -- the property on the implementation's own answers
+        let holds := !inDomain || !isSExp f1 ||
+          (isSExp f2 && f3 == f1 && f4 == f2 && (eq == "1" || mentionsNaN f1))
+        if !holds then failVerdict "wire-roundtrip" f1 f3 f2 f4 else
+        let m1 := rR rExpr (p.fromProto id)
+        match stage "E" m1 f1 true with
+        | some d => d
+        | none =>
+          if !isSExp f1 then .ok else
+          match (readSExp f1).bind decExpr with
+          | none => .bad
+          | some e1 =>
+            match stage "P'" (rR rNodeP e1.toProto) f2 with
+            | some d => d
+            | none =>
+              if !isSExp f2 then .ok else
+              match (readSExp f2).bind decNodeP with
+              | none => .bad
+              | some p2 =>
+                match stage "E'" (rR rExpr (p2.fromProto id)) f3 true with
+                | some d => d
+                | none =>
+                  if !isSExp f3 then .ok else
+                  match (readSExp f3).bind decExpr with
+                  | none => .bad
+                  | some e3 =>
+                    match stage "P''" (rR rNodeP e3.toProto) f4 with
+                    | some d => d
+                    | none => .ok
+      | _, _ => .bad
+    else if op.startsWith "ex " then
+      match (readSExp (sdrop op 3)).bind decExpr, fields with
+      | some e, [f1, f2, f3, eq] =>
+        let inDomain := e.supported
+        let holds := !inDomain ||
+          (isSExp f1 && f2 == sdrop op 3 && f3 == f1 && (eq == "1" || mentionsNaN f1))
+        if !holds then failVerdict "proto-roundtrip" (sdrop op 3) f2 f1 f3 else
+        match stage "P" (rR rNodeP e.toProto) f1 with
+        | some d => d
+        | none =>
+          if !isSExp f1 then .ok else
+          match (readSExp f1).bind decNodeP with
+          | none => .bad
+          | some p1 =>
+            match stage "E'" (rR rExpr (p1.fromProto id)) f2 true with
+            | some d => d
+            | none =>
+              if !isSExp f2 then .ok else
+              match (readSExp f2).bind decExpr with
+              | none => .bad
+              | some e2 =>
+                match stage "P''" (rR rNodeP e2.toProto) f3 with
+                | some d => d
+                | none => .ok
+      | _, _ => .bad
+    else .bad
+  ((), v)
+
+def family : Family := { σ := Unit, init := (), step := step }
+
+end B6.Driver.C19
+
+def main : IO Unit := B6.Driver.run B6.Driver.C19.family
